@@ -28,13 +28,15 @@ FLOORS = {
                            "linestatement_blank_lines_before_tags": 60,
                            "template_ctor_compares": 300, "overlay_compares": 300,
                            "isolation_rerenders": 150, "lexer_configs_interleaved": 60,
-                           "pair_order_checks": 60, "overlay_divergent_option_checks": 100}},
+                           "pair_order_checks": 60, "overlay_divergent_option_checks": 100,
+                           "overlay_inherits_option_checks": 100}},
     "thorough": {"evaluations": 60000, "distinct": 6000,
                  "counters": {"delimiter_compares": 16000, "linestatement_compares": 6000,
                               "linestatement_blank_lines_before_tags": 1200,
                               "template_ctor_compares": 6000, "overlay_compares": 6000,
                               "isolation_rerenders": 3000, "lexer_configs_interleaved": 60,
-                              "pair_order_checks": 60, "overlay_divergent_option_checks": 100}},
+                              "pair_order_checks": 60, "overlay_divergent_option_checks": 100,
+                              "overlay_inherits_option_checks": 100}},
 }
 
 SYNTAXES = {
@@ -452,6 +454,25 @@ def check_overlays(ctx, rng):
                               f"{order}: base {b!r}/{again_b!r} (want {want_base!r}), overlay {o!r}/{again_o!r} "
                               f"(want {want_ov!r}) for {src!r} with overlay options {delta}",
                               {"kind": "overlaydim", "dim": name})
+        # inheritance: an overlay made WITHOUT repeating an option of its base (or repeating only
+        # other options) renders like a fresh environment with the base's options
+        base2 = jinja2.Environment(loader=jinja2.DictLoader({"t": src}), **delta)
+        for how, mk in (("overlay()", lambda: base2.overlay()),
+                        ("overlay().overlay()", lambda: base2.overlay().overlay()),
+                        ("overlay(cache_size=0)", lambda: base2.overlay(cache_size=0)),
+                        ("overlay(autoescape=False)", lambda: base2.overlay(autoescape=False)),
+                        ("overlay(extensions=[])", lambda: base2.overlay(extensions=[]))):
+            ov2 = util.capture(mk)
+            got = get(ov2.value) if ov2.ok else ov2
+            fs2 = util.capture(lambda: ov2.value.from_string(src).render()) if ov2.ok else ov2
+            ctx.ev(2)
+            ctx.count("overlay_inherits_option_checks")
+            if not (same(got, want_ov) and same(fs2, fs_want)):
+                ctx.violation("overlay:does-not-inherit:" + name,
+                              f"Environment(**{delta}).{how}: get_template {got!r}, from_string {fs2!r}; a fresh "
+                              f"environment with these options renders {want_ov!r} for {src!r}",
+                              {"kind": "overlaydim", "dim": name})
+                break
         ctx.dist(["overlaydim", name])
 
 
